@@ -13,6 +13,7 @@ import (
 	"fmt"
 	"os"
 	"sync"
+	"time"
 
 	"github.com/libsv/go-bk/base58"
 	"github.com/libsv/go-bk/bec"
@@ -63,6 +64,12 @@ func runConc(args []string) int {
 		go func(w int) {
 			defer wg.Done()
 			<-start
+			// half of the workers arrive while the initialisation is running, the others after it
+			// has finished (time.Sleep creates no happens-before edge): an unsynchronised fast path in
+			// front of the Once is only exercised by the late ones
+			if w%2 == 1 {
+				time.Sleep(time.Duration(w) * 3 * time.Millisecond)
+			}
 			c := bec.S256() // first call in this process, concurrently
 			x, y := c.ScalarBaseMult(scalar)
 			put("first-S256.sbmul", nhx(x)+","+nhx(y))
